@@ -34,13 +34,18 @@ const ZXST_BLOCK_HEADER_SIZE: usize = 8; // The header for each block
 // Process Creator (CRTR) block
 fn process_crtr_block<H: Host>(_: &mut Emulator<H>, block_data: &[u8]) {
     let crtr_name_bytes = &block_data[0..33];
-    let _ = from_utf8(crtr_name_bytes).unwrap();
+    let _ = from_utf8(crtr_name_bytes);
     let _ = u16::from_le_bytes([block_data[33], block_data[34]]);
     let _ = u16::from_le_bytes([block_data[35], block_data[36]]);
 }
 
 // Process ZXSTZ80REGS (Z80R) block
-fn process_z80r_block<H: Host>(emulator: &mut Emulator<H>, block_data: &[u8]) {
+fn process_z80r_block<H: Host>(emulator: &mut Emulator<H>, block_data: &[u8]) -> Result<()> {
+    // IM
+    if block_data[28] > 2 {
+        return Err(SnapshotLoadError::InvalidSZXFile.into());
+    }
+
     // AF
     emulator
         .cpu
@@ -166,6 +171,8 @@ fn process_z80r_block<H: Host>(emulator: &mut Emulator<H>, block_data: &[u8]) {
         .cpu
         .regs
         .set_mem_ptr(u16::from_le_bytes([block_data[35], block_data[36]]));
+
+    Ok(())
 }
 
 // Process ZXSTSPECREGS (SPCR) block
@@ -191,7 +198,7 @@ fn process_spcr_block<H: Host>(emulator: &mut Emulator<H>, machine_id: u32, bloc
     // chBorder
     // Setting the border after the out to 0xfe above because that too
     // sets the border color.
-    emulator.controller.border_color = ZXColor::from_bits(block_data[0]);
+    emulator.controller.border_color = ZXColor::from_bits(block_data[0] & 0x07);
 }
 
 // Process ZXSTAYBLOCK (AY00)
@@ -315,7 +322,7 @@ where
     H: Host,
     A: LoadableAsset + SeekableAsset,
 {
-    let _ = asset.seek(SeekFrom::End(0))?;
+    let file_size = asset.seek(SeekFrom::End(0))?;
     let mut cursor_pos = 0;
     asset.seek(SeekFrom::Start(0))?;
 
@@ -352,14 +359,19 @@ where
             block_header[6],
             block_header[7],
         ]);
-        let id_bytes = &[
+        let mut id = [
             block_header[0],
             block_header[1],
             block_header[2],
             block_header[3],
         ];
-        let id_str = from_utf8(id_bytes).unwrap().to_uppercase();
+        id.make_ascii_uppercase();
         cursor_pos += ZXST_BLOCK_HEADER_SIZE;
+
+        // A block can't be bigger than the rest of the file
+        if size as usize > file_size.saturating_sub(cursor_pos) {
+            return Err(SnapshotLoadError::InvalidSZXFile.into());
+        }
 
         // ZXST Block Data
         asset.seek(SeekFrom::Start(cursor_pos))?;
@@ -369,27 +381,42 @@ where
             return Err(SnapshotLoadError::InvalidSZXFile.into());
         }
 
-        match id_str.as_str() {
-            "CRTR" => {
+        // Minimal size of the blocks we look into
+        let min_size = match &id {
+            b"CRTR" => 37,
+            b"Z80R" => 37,
+            b"SPCR" => 8,
+            b"AY\0\0" => 18,
+            b"KEYB" => 5,
+            b"AMXM" => 1,
+            b"RAMP" => 3,
+            _ => 0,
+        };
+        if block_data.len() < min_size {
+            return Err(SnapshotLoadError::InvalidSZXFile.into());
+        }
+
+        match &id {
+            b"CRTR" => {
                 process_crtr_block(emulator, &block_data);
             }
-            "Z80R" => {
-                process_z80r_block(emulator, &block_data);
+            b"Z80R" => {
+                process_z80r_block(emulator, &block_data)?;
             }
-            "SPCR" => {
+            b"SPCR" => {
                 process_spcr_block(emulator, machine_id, &block_data);
             }
             #[cfg(all(feature = "sound", feature = "ay"))]
-            "AY\0\0" => {
+            b"AY\0\0" => {
                 process_ay_block(emulator, machine_id, &block_data);
             }
-            "KEYB" => {
+            b"KEYB" => {
                 process_keyb_block(emulator, &block_data);
             }
-            "AMXM" => {
+            b"AMXM" => {
                 process_amxm_block(emulator, &block_data);
             }
-            "RAMP" => {
+            b"RAMP" => {
                 process_ramp_block(emulator, machine_id, &block_data)?;
             }
 
